@@ -91,7 +91,7 @@ func consistentPublicMaterial(parties []uint16, stored map[uint16][]byte) string
 func unitC01direct(e common.Env, p *common.Part) {
 	p.Rule = "BLS key generation with directly wired TBLS backends (per-link FIFO, PRNG delivery order) for all 2<=t<=n<=6 (thorough 7), party identifier sets 1..n, non-contiguous and PRNG (<256, incl. 0); then fresh signers re-created from the serialised stored data only: every subset of size >= t signs digests {empty, 1 byte, 32 random bytes, 32 bytes with leading zeros, 1 KiB}, signatures aggregated in PRNG order and verified under the threshold public key a PRNG-chosen party reports; distinct key = (n, t, id set, schedule seed); non-trivial when key generation completed and at least one aggregate was verified"
 	maxN := e.Pick(6, 7)
-	reps := e.Pick(4, 12)
+	reps := e.Pick(4, 60)
 	idx := 0
 	for n := 2; n <= maxN; n++ {
 		for t := 2; t <= n; t++ {
@@ -162,7 +162,7 @@ func classify(v string) string {
 func unitC01orch(e common.Env, p *common.Part) {
 	p.Rule = "BLS key generation through real LoudScheme / SilentScheme objects (real disc.Member, rbc.Receiver, msg.Box) on the simulated network in random mode with five delivery policies and staggered starts, node id = party id (non-contiguous, <256), 2<=t<=n<=5 (thorough 6); then every subset of size >= t verified as in the direct arm; distinct key = (n, t, mode, ids, delivery-order hash); non-trivial when key generation completed and >= 1 aggregate verified"
 	maxN := e.Pick(5, 6)
-	reps := e.Pick(3, 12)
+	reps := e.Pick(3, 40)
 	idx := 0
 	for n := 2; n <= maxN; n++ {
 		for t := 2; t <= n; t++ {
